@@ -156,7 +156,7 @@ def check(tier, seed):
     except fw.CheckFailure as e:
         model_err = str(e)
 
-    n = 120 if tier == 'quick' else 1500
+    n = 120 if tier == 'quick' else 8000
     sp = docs.spec()
     documents = []            # (class, node, text)
     for j in range(n):
@@ -223,7 +223,7 @@ def check(tier, seed):
             got = names_of(res[j][1])
             if got != c:
                 mismatches.append((j, dict(c - got), dict(got - c)))
-    table = P.probe_check(rng.randrange(1 << 30), per=2 if tier == 'quick' else 5)
+    table = P.probe_check(rng.randrange(1 << 30), per=2 if tier == 'quick' else 8)
     table_bad = []
     for sid, h, f, p in P.instances():
         k = P.inst_key(sid, p)
